@@ -643,5 +643,6 @@ pub fn run_c09(ctx: &Ctx) -> (&'static str, Map<String, Value>) {
     m.insert("alphabet".into(), json!((0..NCALLS).map(call_name).collect::<Vec<_>>()));
     m.insert("rule".into(), json!(format!("every sequence of calls over the full 26-call alphabet up to depth {} and over the 11-call core alphabet one call deeper (two deeper in the thorough tier) (state = the history, no merging), each executed call compared with the pristine result of the same call from a fresh process; all 20 interleavings of two OS threads x three calls for {} call assignments under a baton scheduler", depth - 1, triples.len() * triples.len())));
     m.insert("exhaustive".into(), json!(true));
+    crate::props_build::fv_cross_or_exit(ctx, &mut m);
     ("model_checking", m)
 }
